@@ -42,3 +42,31 @@ package modular
 //@   modifies natv(out)
 //@   ensures natv(out) == (old(natv(a)) * cinv(old(natv(b)), mval(m.N2))) % mval(m.N2)
 //@   ensures result == cinvok(old(natv(b)), mval(m.N2))
+
+// ---------------------------------------------------------------- signed exponentiation (C16, C17)
+// cexp(x, e, n): the value the CRT-accelerated ModExp stores for base x and the natural exponent e modulo n (ASSUMED
+// contract: the body fans out to goroutines). intv is the ghost value of a *numct.Int.
+//@ ghost func cexp(x Int, e Int, n Int) Int
+//@ func (*OddPrimeSquareFactors).ModExp
+//@   assumed
+//@   modifies natv(out)
+//@   ensures natv(out) == cexp(old(natv(base)), old(natv(exp)), mval(m.N2))
+//@ func (*OddPrimeFactors).ModExp
+//@   assumed
+//@   modifies natv(out)
+//@   ensures natv(out) == cexp(old(natv(base)), old(natv(exp)), mval(m.N))
+
+// Exponentiation by a signed integer raises to the FULL magnitude of the exponent (whatever its width: nothing is
+// truncated to the width of the modulus) and inverts the result exactly when the exponent is negative.
+//@ func (*OddPrimeSquareFactors).ModExpI
+//@   property C16, C17
+//@   requires m != nil && out != nil && base != nil && exp != nil
+//@   modifies natv(out)
+//@   ensures old(intv(exp)) >= 0 ==> natv(out) == cexp(old(natv(base)), old(intv(exp)), mval(m.N2))
+//@   ensures old(intv(exp)) < 0 ==> natv(out) == cinv(cexp(old(natv(base)), 0 - old(intv(exp)), mval(m.N2)), mval(m.N2))
+//@ func (*OddPrimeFactors).ModExpI
+//@   property C16, C17
+//@   requires m != nil && out != nil && base != nil && exp != nil
+//@   modifies natv(out)
+//@   ensures old(intv(exp)) >= 0 ==> natv(out) == cexp(old(natv(base)), old(intv(exp)), mval(m.N))
+//@   ensures old(intv(exp)) < 0 ==> natv(out) == cinv(cexp(old(natv(base)), 0 - old(intv(exp)), mval(m.N)), mval(m.N))
